@@ -173,6 +173,43 @@ def _toy_curve_check(p, a, b, G, n, h, N, col, full_double):
     col.bulk(evals, nontriv, {"curve": case_id, "scalars": f"{-n-1}..{2*n+1} + 4 large", "points": n}, {"curve-accepted": 1, f"cofactor={min(h,3)}": 1})
 
 
+def hasse_units(tier):
+    """primes above the exhaustive sweep: for each, the prime-order curves (cofactor 1) on the two ends of the Hasse interval and just inside them"""
+    top = 131 if tier == "quick" else 257
+    return [[q] for q in range(29, top + 1) if ref.is_prime(q)]
+
+
+def hasse_run_unit(unit, col):
+    from vlib import determinism
+
+    determinism.reset({"unit": unit})
+    (p,) = unit
+    delta = isqrt(4 * p)
+    wanted = {p + 1 - delta: "lower-bound", p + 1 - delta + 1: "lower-bound+1", p + 1 + delta - 1: "upper-bound-1", p + 1 + delta: "upper-bound"}
+    wanted = {N: w for N, w in wanted.items() if ref.is_prime(N)}
+    squares = {}
+    for y in range(p):
+        squares[y * y % p] = squares.get(y * y % p, 0) + 1
+    found = {}
+    for a in range(p):
+        for b in range(p):
+            if len(found) == len(wanted):
+                break
+            if (4 * a**3 + 27 * b * b) % p == 0:
+                continue
+            N = 1 + sum(squares.get((x * x * x + a * x + b) % p, 0) for x in range(p))
+            if N in wanted and N not in found:
+                found[N] = (a, b)
+    if not found:
+        col.bulk(1, 0, None, {"no-prime-order-on-the-bounds": 1})
+        return
+    for N, (a, b) in sorted(found.items()):
+        G = ref.points(p, a, b)[0]
+        before = len(col.failures) if hasattr(col, "failures") else None
+        _toy_curve_check(p, a, b, G, N, 1, N, col, full_double=False)
+        col.bulk(0, 0, None, {wanted[N]: 1})
+
+
 def toy_run_unit(unit, col):
     from vlib import determinism
 
@@ -680,6 +717,8 @@ def check_sec(case):
 
 
 SUBCHECKS = [
+    SubCheck("hasse_bounds", lambda c: None, "the prime-order curves (cofactor 1) whose order sits on either end of the Hasse interval p + 1 -+ isqrt(4p), or one inside it, for every prime p from 29 to 131 (257 thorough): accepted, "
+             "and the whole group law on them as in toy_exhaustive; non-trivial as there", units=hasse_units, run_unit=hasse_run_unit, exhaustive=True),
     SubCheck("toy_exhaustive", lambda c: None, "every toy curve/subgroup/point x scalar; non-trivial = result != INF or a zero result from non-zero operands; distinct by construction (curve, function, operands)",
              units=toy_units, run_unit=toy_run_unit, exhaustive=True),
     SubCheck("toy_multi", check_toy_multi, "multi_mult_var on accepted toy curves (p<=19), 0..8 and 54..70 terms, zero scalars / INF terms / cancelling sums; non-trivial: >=2 non-zero terms", toy_multi_case, quick=3000, thorough=40000),
